@@ -1820,3 +1820,64 @@ def _div_ceil(ex, c):
 def _int_min(ex, c):
     a, b = c.args
     return BV(z3.If(z3.ULE(a.t, b.t), a.t, b.t), a.signed)
+
+
+@summary("Vec::resize_with")
+def _vec_resize_with(ex, c):
+    r, n, f = c.args
+    base = r
+    while isinstance(ex.load(base), Ref):
+        base = ex.load(base)
+    seq = ex.load(base)
+    nv = z3.simplify(n.t)
+    if not z3.is_bv_value(nv):
+        raise Unsupported("resize_with to a symbolic length")
+    nv = nv.as_long()
+    items = list(seq.items)[:nv]
+    while len(items) < nv:
+        items.append(ex.call_callable(f, []))
+    ex.store(base, Seq(items))
+    return UNIT
+
+
+@summary("core::slice::split_at")
+def _slice_split_at(ex, c):
+    seq = deref(ex, c.args[0])
+    n = z3.simplify(c.args[1].t)
+    if not z3.is_bv_value(n):
+        raise Unsupported("split_at a symbolic position")
+    n = n.as_long()
+    if n > len(seq.items):
+        raise Panic("mid > len in split_at")
+    return Tup([Ref(Cell(Seq(list(seq.items[:n]), "slice"))), Ref(Cell(Seq(list(seq.items[n:]), "slice")))])
+
+
+@summary("std::mem::size_of", "core::mem::size_of")
+def _size_of(ex, c):
+    ty = (c.generics[0] if c.generics else "").strip()
+    if ty in INT_TYPES:
+        return bv_const(INT_TYPES[ty][0] // 8, "usize")
+    m = re.match(r"^\[(\w+); (\d+)\]$", ty)
+    if m and m.group(1) in INT_TYPES:
+        return bv_const(INT_TYPES[m.group(1)][0] // 8 * int(m.group(2)), "usize")
+    raise Unsupported(f"size_of::<{ty}>")
+
+
+@summary("<[u8] as TryInto>::try_into", "<* as TryInto>::try_into")
+def _slice_try_into(ex, c):
+    v = deref(ex, c.args[0])
+    ty = c.dest_ty or ""
+    m = re.search(r"\[(\w+); (\d+)\]", ty) or (re.search(r"\[(\w+); (\d+)\]", c.generics[0]) if c.generics else None)
+    if not isinstance(v, Seq) or not m:
+        raise Unsupported(f"try_into of {v!r} into {ty}")
+    if len(v.items) != int(m.group(2)):
+        return err(Opaque("TryFromSliceError"))
+    return ok(Seq(list(v.items), "array"))
+
+
+@summary("Ipv4Addr::new", "std::net::Ipv4Addr::new")
+def _ip4_new(ex, c):
+    t = c.args[0].t
+    for x in c.args[1:]:
+        t = z3.Concat(t, x.t)
+    return Adt("Ipv4Addr", None, [BV(t)])
